@@ -6,7 +6,7 @@ CONSTANTS
   NP = 1
   Names = {"a"}
   Vals = {1}
-  Acts = {"CreateGroup", "CreateObject", "AddData", "CreateWithUid", "RemoveViaWorkspace", "RemoveViaParent", "Copy", "Close", "Open", "DropRef", "Collect", "Purge", "LookupDead"}
+  Acts = {"CreateGroup", "CreateObject", "AddData", "CreateWithUid", "RemoveViaWorkspace", "RemoveViaParent", "Copy", "Close", "Open", "OpenAgain", "DropRef", "Collect", "Purge", "LookupDead"}
   Deviations = {"CloseKeepsOrphans"}
   MaxDepth = 6
 CONSTRAINT DepthBound
